@@ -278,7 +278,8 @@ def layer_keywords():
         yield ("K", (kw, "plabel"), skeleton(pm=kw), 1e-8)
 
 
-UNICODE_FORMS = ("e\u0301", "a\u0303b", "\u1112\u1161\u11ab", "\u212b", "\u2126", "\ufb01", "\u00e9", "e\u0323\u0302", "x\u0301\u0301", "\U0001f600\u200d",
+# (the last two: the byte-order-mark character U+FEFF / ZERO WIDTH NO-BREAK SPACE and U+FFFE as ordinary text INSIDE a label)
+UNICODE_FORMS = ("ab\ufeffcd", "x\ufffe", "e\u0301", "a\u0303b", "\u1112\u1161\u11ab", "\u212b", "\u2126", "\ufb01", "\u00e9", "e\u0323\u0302", "x\u0301\u0301", "\U0001f600\u200d",
                  "I\u0307", "\u01c5", "\u00df", "\u1e9e", "A\u030a", "\u00c5")
 
 
